@@ -406,7 +406,7 @@ pub enum OneShot {
 
 fn small_count() -> BoxedStrategy<usize> {
     // small counts, counts of tens to a few hundred given COMPLETELY (every value and the power-of-two edges), and the extreme pool
-    prop_oneof![14 => 1usize..=12, 2 => 13usize..=140, 1 => (4u32..=8, 0usize..3).prop_map(|(a, d)| (1usize << a) + d - 1), 1 => count_pool()].boxed()
+    prop_oneof![14 => 1usize..=12, 2 => 13usize..=140, 1 => 141usize..=6000, 1 => (4u32..=8, 0usize..3).prop_map(|(a, d)| (1usize << a) + d - 1), 1 => count_pool()].boxed()
 }
 
 pub fn oneshot_strategy(_t: Tier) -> BoxedStrategy<OneShot> {
@@ -415,7 +415,8 @@ pub fn oneshot_strategy(_t: Tier) -> BoxedStrategy<OneShot> {
             // rarely: shards of 1..3 MiB (size-dependent paths of the one-shot functions), few of them
             let b = if nraw % 32 == 7 && k <= 4 && r <= 4 { (1 << 20) + (nraw as usize * 7919 % (1 << 21)) / 2 * 2 } else { tame(Kind::Rs, k, r, b).min(4096) };
             // number of shards: exactly k (mostly), k-1, k+1, 0, random
-            let kk = k.min(320);
+            // (thousands of shards only when they are a few bytes each)
+            let kk = k.min(if b <= 8 { 6000 } else { 320 });
             let n = match nsel {
                 0 | 1 => kk,
                 2 => kk.saturating_sub(1 + nraw as usize % 2),
@@ -450,8 +451,8 @@ pub fn oneshot_strategy(_t: Tier) -> BoxedStrategy<OneShot> {
                 (r, shape)
             };
             let b = if raw_s % 32 == 7 && k <= 4 && r <= 4 { (1 << 20) + (raw_s as usize * 7919 % (1 << 21)) / 2 * 2 } else { tame(Kind::Rs, k, r, b).min(4096) };
-            let kk = k.min(320);
-            let rr = r.min(320);
+            let kk = k.min(if b <= 8 { 6000 } else { 320 });
+            let rr = r.min(if b <= 8 { 6000 } else { 320 });
             // how many originals are given in the base input
             let n_o = match shape {
                 0 => kk,                       // everything there (with or without recovery)
